@@ -168,6 +168,35 @@ func main() {
 	fmt.Printf("Definition payout_guard_enabled : bool := %s.\n", CoqBool(guardEnabled))
 	fmt.Printf("Definition payout_guard_empty : bool := %s.\n", CoqBool(guardEmpty))
 
+	// getAllowedFees: does the `if fee.Denom == allowed { … }` block leave the inner loop after the first match?
+	breaks, adds := false, 0
+	if fd := df["getAllowedFees"]; fd != nil && fd.Body != nil {
+		ast.Inspect(fd.Body, func(n ast.Node) bool {
+			ifs, ok := n.(*ast.IfStmt)
+			if !ok {
+				return true
+			}
+			be, ok := ifs.Cond.(*ast.BinaryExpr)
+			if !ok || be.Op != token.EQL || !strings.HasSuffix(Nospace(be.X), ".Denom") {
+				return true
+			}
+			for _, st := range ifs.Body.List {
+				if br, ok := st.(*ast.BranchStmt); ok && br.Tok == token.BREAK && br.Label == nil {
+					breaks = true
+				}
+			}
+			ast.Inspect(ifs.Body, func(m ast.Node) bool {
+				if c, ok := m.(*ast.CallExpr); ok && strings.HasSuffix(Nospace(c.Fun), ".Add") {
+					adds++
+				}
+				return true
+			})
+			return true
+		})
+	}
+	fmt.Printf("Definition allowed_fees_break_after_first_match : bool := %s.\n", CoqBool(breaks))
+	fmt.Printf("Definition allowed_fees_adds_per_match : nat := %d.\n", adds)
+
 	// ---- msg server: order of guard and write calls per handler
 	keeper := ParseDir(repo + "/x/devgas/v1/keeper")
 	kf := Funcs(keeper)
